@@ -3,9 +3,9 @@ package main
 // Wiring and configuration-side rules: C02.c, C12.c-e, C14.a-c, C20.d, CONSTRUCTOR-DISCIPLINE.
 
 import (
-	"os"
 	"fmt"
 	"go/types"
+	"os"
 	"sort"
 	"strings"
 
@@ -13,15 +13,15 @@ import (
 )
 
 const (
-	fnAsLogMap   = "(" + pOmni + ".LogConfig).AsLogMap"
-	fnNewLog     = pConfig + ".NewLog"
-	fnMain       = pOmni + ".Main"
-	fnFeedFunc   = "(" + pOmni + ".Feeder).FeedFunc"
+	fnAsLogMap    = "(" + pOmni + ".LogConfig).AsLogMap"
+	fnNewLog      = pConfig + ".NewLog"
+	fnMain        = pOmni + ".Main"
+	fnFeedFunc    = "(" + pOmni + ".Feeder).FeedFunc"
 	fnParseFeeder = pOmni + ".ParseFeeder"
-	fnRunDist    = pOmni + ".runRestDistributors"
-	fnNewServer  = pIHTTP + ".NewServer"
-	cNewVerifier = "github.com/transparency-dev/formats/note.NewVerifier"
-	cGroupGo     = "(*golang.org/x/sync/errgroup.Group).Go"
+	fnRunDist     = pOmni + ".runRestDistributors"
+	fnNewServer   = pIHTTP + ".NewServer"
+	cNewVerifier  = "github.com/transparency-dev/formats/note.NewVerifier"
+	cGroupGo      = "(*golang.org/x/sync/errgroup.Group).Go"
 )
 
 var feederPkgs = []string{"serverless", "sumdb", "pixelbt", "rekor", "tiles"}
@@ -1265,7 +1265,6 @@ func ruleNeverGivesUp(w *World, r *Run, rule string) {
 		}
 	}
 }
-
 
 // entryOfNewLog: the configuration entry a config.NewLog result was built from (the struct whose fields are its arguments).
 func entryOfNewLog(lg *Term) *Term {
